@@ -15,13 +15,18 @@
   * `bin_coefRT`, `bin_upoly_roundtrip(_beq)`, `ext_coefRT`, `ext_upoly_roundtrip(_beq)` —
     univariate polynomials over binary and extension fields (instances at the fields the `Define`
     functions return: `Props/C15FullDefine.lean`).
-  Still only stated (`C15.C15_full`, and `C15Full_remaining` below): bivariate polynomials,
-  additivity, the notational variations.
+  * `bpoly_roundtrip_generic`, `prime_bpoly_roundtrip`, `bin_bpoly_roundtrip`,
+    `ext_bpoly_roundtrip` — bivariate polynomials, every monomial order, with or without ideal
+    (exponents `< 2^64`, as `BValid` demands).
+  Still only stated (`C15.C15_full`, and `C15Full_remaining` below): additivity and the notational
+  variations.
 -/
 import Algobra.Props.C15
 import Algobra.Props.C03
 import Algobra.Proofs.ParseRTPoly
 import Algobra.Proofs.ParseRTCoef
+import Algobra.Proofs.ParseRTBPoly
+import Algobra.Proofs.BPolyPerm
 import Algobra.Proofs.ExtField
 
 namespace Algobra.C15
@@ -419,7 +424,198 @@ example : UPoly.parse { F := extOps 3 2 [2, 2, 1], varName := "X", modulus := no
   have e : UPoly.toStr (extOps 3 2 [2, 2, 1]) "X" [[1, 2], [0, 1]] = "aX + (2a + 1)" := by decide
   rwa [e] at h
 
-/-! ### 6. what remains of `C15_full` -/
+/-! ### 6. bivariate polynomials
+
+  `Parse.matchesB` on a printed polynomial yields one match per term (`ParseRT.matchesB_terms`);
+  the parser rebuilds the polynomial in printing order, i.e. as `sortedTerms`, a permutation of
+  the original association list; division does not depend on the order of the stored terms
+  (`BPoly.reduceIn_perm`, every `Order`, every ideal), so in a quotient ring the reduced original
+  is returned, and without ideal the permutation, which `Equal` identifies with the original. -/
+
+theorem unconf_of_unconfusable {a b : String} (h : Unconfusable a b) : Parse.unconf a b = true := by
+  unfold Unconfusable UPoly.strLower at h
+  simp only [String.toList_ofList] at h
+  unfold Parse.unconf
+  have h1 : (a.toList.map Regex.lower).isPrefixOf (b.toList.map Regex.lower) = false := by
+    cases hh : (a.toList.map Regex.lower).isPrefixOf (b.toList.map Regex.lower) with
+    | false => rfl
+    | true => exact absurd (List.isPrefixOf_iff_prefix.1 hh) h.1
+  have h2 : (b.toList.map Regex.lower).isPrefixOf (a.toList.map Regex.lower) = false := by
+    cases hh : (b.toList.map Regex.lower).isPrefixOf (a.toList.map Regex.lower) with
+    | false => rfl
+    | true => exact absurd (List.isPrefixOf_iff_prefix.1 hh) h.2
+  rw [h1, h2]; rfl
+
+theorem bnames_of {α : Type} {F : FOps α} {x y : String} (hx : AdmissibleName x)
+    (hy : AdmissibleName y) (hxy : Unconfusable x y)
+    (hun : ∀ w, F.ownVar = some w → Unconfusable x w ∧ Unconfusable y w) : BNames F x y := by
+  obtain ⟨x0, xt, hx1, hx2, _⟩ := hx
+  obtain ⟨y0, yt, hy1, hy2, _⟩ := hy
+  have hxy' := hxy
+  unfold Unconfusable UPoly.strLower at hxy'
+  simp only [String.toList_ofList] at hxy'
+  refine ⟨⟨x0, xt, hx1, hx2⟩, ⟨y0, yt, hy1, hy2⟩, stripCi_none_of_unconf hxy', ?_,
+    fun w X hw => strip_none_of_unconfusable (hun w hw).1 X,
+    fun w X hw => strip_none_of_unconfusable (hun w hw).2 X⟩
+  intro e
+  apply hxy'.1
+  have := congrArg String.toList e
+  unfold UPoly.strLower at this
+  simp only [String.toList_ofList] at this
+  rw [this]
+
+/-- Round trip of bivariate polynomials (default notation) over any lawful coefficient record with
+    a `CoefRT` coefficient syntax, for admissible, pairwise unconfusable variable names, EVERY
+    monomial order and EVERY ideal: a well-formed (distinct exponent pairs, valid nonzero
+    coefficients), reduced polynomial whose exponents fit a machine word (`strconv.ParseUint`) is
+    parsed to an `Equal` polynomial. -/
+theorem bpoly_roundtrip_generic {α K : Type} [Field K] {F : FOps α} (L : Lawful F K)
+    (H : CoefRT F L.valid) (hz1 : F.toStr F.zero = "0") (hz2 : ¬ F.nTerms F.zero > 1)
+    (hown : ∀ w, F.ownVar = some w → AdmissibleName w)
+    {x y : String} (hx : AdmissibleName x) (hy : AdmissibleName y) (hxy : Unconfusable x y)
+    (hun : ∀ w, F.ownVar = some w → Unconfusable x w ∧ Unconfusable y w)
+    (ord : Order) (ideal : Option (List (BPoly α))) {f : BPoly α} (hf : BPoly.WF L f)
+    (hb : BPoly.Bounded f)
+    (hred : BPoly.reduceIn { F := F, ord := ord, varNames := (x, y), ideal := ideal } f = some f) :
+    ∃ g, BPoly.parse { F := F, ord := ord, varNames := (x, y), ideal := ideal }
+        (BPoly.toStr { F := F, ord := ord, varNames := (x, y), ideal := ideal } f) = .ok (some g) ∧
+      BPoly.equal F f g = true := by
+  have hdir : BPoly.directOK { F := F, ord := ord, varNames := (x, y), ideal := ideal } = true := by
+    unfold BPoly.directOK
+    simp only [(admissible_iff_simple x).1 hx, (admissible_iff_simple y).1 hy, Bool.and_self,
+      Bool.true_and]
+    cases hw : F.ownVar with
+    | none => rfl
+    | some w =>
+      simp only [(admissible_iff_simple w).1 (hown w hw), unconf_of_unconfusable (hun w hw).1,
+        unconf_of_unconfusable (hun w hw).2, Bool.and_self]
+  have hparse := bpoly_parse_toStr { F := F, ord := ord, varNames := (x, y), ideal := ideal } L H
+    hz1 hz2 (bnames_of hx hy hxy hun) hdir hf hb
+  have hperm := sortedTerms_perm (F := F) ord hf.1
+  rw [hparse]
+  cases hid : ideal with
+  | none =>
+    refine ⟨BPoly.sortedTerms F ord f, by simp [BPoly.reduceIn], ?_⟩
+    exact (BPoly.equal_iff L hf (BPoly.WF_perm L hperm.symm hf)).2 (BPoly.toMv_perm L hperm.symm)
+  | some gs =>
+    subst hid
+    refine ⟨f, ?_, (BPoly.equal_iff L hf hf).2 rfl⟩
+    rw [← BPoly.reduceIn_perm _ (gs := gs) rfl hperm.symm hf.1, hred]
+
+/-- `BPolyRoundTrip` clause 1 (default notation) over a prime field: all orders, with or without
+    ideal -/
+theorem prime_bpoly_roundtrip {p : Nat} (hp : p.Prime) (h32 : p - 1 < 2 ^ 32) {x y : String}
+    (hx : AdmissibleName x) (hy : AdmissibleName y) (hxy : Unconfusable x y) (ord : Order)
+    (ideal : Option (List (BPoly Nat))) {f : BPoly Nat}
+    (hf : BValid (primeSpec p) { F := primeOps p, ord := ord, varNames := (x, y), ideal := ideal } f) :
+    ∃ g, BPoly.parse { F := primeOps p, ord := ord, varNames := (x, y), ideal := ideal }
+        (bToStrN {} { F := primeOps p, ord := ord, varNames := (x, y), ideal := ideal } f) =
+          .ok (some g) ∧
+      BPoly.equal (primeOps p) f g = true := by
+  have := Fact.mk hp
+  obtain ⟨hnd, hval, hred⟩ := hf
+  have L := primeLawfulFact p h32
+  have hwf : BPoly.WF (primeLawfulFact p h32) f :=
+    ⟨hnd, fun t ht => ⟨(hval t ht).1,
+      ((primeLawfulFact p h32).isZero_false_iff _ (hval t ht).1).1 (hval t ht).2.1⟩⟩
+  rw [bToStrN_default]
+  exact bpoly_roundtrip_generic (primeLawfulFact p h32) (prime_coefRT hp.two_le (by omega))
+    (by show toString (0 : Nat) = "0"; decide) (by show ¬ (1 > 1); omega)
+    (fun w hw => by cases hw) hx hy hxy (fun w hw => by cases hw) ord ideal hwf
+    (fun t ht => (hval t ht).2.2) hred
+
+/-- over a binary field (`L`: any lawful structure with `valid a ↔ a < 2^n`) -/
+theorem bin_bpoly_roundtrip {K : Type} [Field K] {n m : Nat} {w : String}
+    (L : Lawful (binOps n m w) K) (hL : ∀ a, L.valid a ↔ a < 2 ^ n) (hw : AdmissibleName w)
+    (hn : n < 64) {x y : String} (hx : AdmissibleName x) (hy : AdmissibleName y)
+    (hxy : Unconfusable x y) (hxw : Unconfusable x w) (hyw : Unconfusable y w) (ord : Order)
+    (ideal : Option (List (BPoly Nat))) {f : BPoly Nat}
+    (hf : BValid (binSpec n m w) { F := binOps n m w, ord := ord, varNames := (x, y), ideal := ideal } f) :
+    ∃ g, BPoly.parse { F := binOps n m w, ord := ord, varNames := (x, y), ideal := ideal }
+        (bToStrN {} { F := binOps n m w, ord := ord, varNames := (x, y), ideal := ideal } f) =
+          .ok (some g) ∧
+      BPoly.equal (binOps n m w) f g = true := by
+  obtain ⟨hnd, hval, hred⟩ := hf
+  have hwf : BPoly.WF L f :=
+    ⟨hnd, fun t ht => ⟨(hL _).2 (hval t ht).1,
+      (L.isZero_false_iff _ ((hL _).2 (hval t ht).1)).1 (hval t ht).2.1⟩⟩
+  have hown : ∀ w', (binOps n m w).ownVar = some w' → w' = w := by
+    intro w' h; injection h with e; exact e.symm
+  rw [bToStrN_default]
+  exact bpoly_roundtrip_generic L ((bin_coefRT hw m hn).mono fun a ha => (hL a).1 ha) rfl
+    (by show ¬ popCount 0 > 1; rw [ParseRT.popCount_zero]; omega)
+    (fun w' h => by rw [hown w' h]; exact hw) hx hy hxy
+    (fun w' h => by rw [hown w' h]; exact ⟨hxw, hyw⟩) ord ideal hwf
+    (fun t ht => (hval t ht).2.2) hred
+
+section ExtBPoly
+variable {p : Nat} [Fact p.Prime] {h32 : p - 1 < 2 ^ 32} {n : Nat} {g : List Nat}
+
+/-- over an extension field (`L`: any lawful structure with `valid = ExtField.Valid`) -/
+theorem ext_bpoly_roundtrip {K : Type} [Field K] (M : ExtField.Modulus h32 n g) (hn : n ≤ 2 ^ 63)
+    (L : Lawful (extOps p n g) K) (hL : ∀ a, L.valid a ↔ ExtField.Valid h32 n a)
+    {x y : String} (hx : AdmissibleName x) (hy : AdmissibleName y) (hxy : Unconfusable x y)
+    (hxw : Unconfusable x "a") (hyw : Unconfusable y "a") (ord : Order)
+    (ideal : Option (List (BPoly (UPoly Nat)))) {f : BPoly (UPoly Nat)}
+    (hf : BValid (extSpec p n g) { F := extOps p n g, ord := ord, varNames := (x, y), ideal := ideal } f) :
+    ∃ g', BPoly.parse { F := extOps p n g, ord := ord, varNames := (x, y), ideal := ideal }
+        (bToStrN {} { F := extOps p n g, ord := ord, varNames := (x, y), ideal := ideal } f) =
+          .ok (some g') ∧
+      BPoly.equal (extOps p n g) f g' = true := by
+  obtain ⟨hnd, hval, hred⟩ := hf
+  have hv : ∀ t ∈ f, L.valid t.2 := fun t ht =>
+    (hL _).2 (by have := (hval t ht).1; exact ⟨⟨this.2.2, this.1⟩, this.2.1⟩)
+  have hwf : BPoly.WF L f :=
+    ⟨hnd, fun t ht => ⟨hv t ht, (L.isZero_false_iff _ (hv t ht)).1 (hval t ht).2.1⟩⟩
+  have hown : ∀ w', (extOps p n g).ownVar = some w' → w' = "a" := by
+    intro w' h; injection h with e; exact e.symm
+  rw [bToStrN_default]
+  exact bpoly_roundtrip_generic L ((ext_coefRT M hn).mono fun a ha => (hL a).1 ha)
+    (by show UPoly.toStr (primeOps p) "a" [0] = "0"; rfl)
+    (by show ¬ UPoly.nTerms (primeOps p) [0] > 1; simp [UPoly.nTerms, UPoly.isZero, primeOps])
+    (fun w' h => by rw [hown w' h]; exact ⟨'a', [], by decide, by decide, by decide⟩) hx hy hxy
+    (fun w' h => by rw [hown w' h]; exact ⟨hxw, hyw⟩) ord ideal hwf
+    (fun t ht => (hval t ht).2.2) hred
+
+end ExtBPoly
+
+-- non-vacuity: 3X^2Y + X + 5 in F_7[X,Y] (lex), stored in another order than printed
+example : ∃ g, BPoly.parse { F := primeOps 7, ord := ⟨.lex, true⟩, varNames := ("X", "Y"), ideal := none }
+      "3X^2Y + X + 5" = .ok (some g) ∧
+    BPoly.equal (primeOps 7) [((2, 1), 3), ((0, 0), 5), ((1, 0), 1)] g = true := by
+  have h := prime_bpoly_roundtrip (p := 7) (by norm_num) (by norm_num) (x := "X") (y := "Y")
+    ⟨'X', [], by decide, by decide, by decide⟩ ⟨'Y', [], by decide, by decide, by decide⟩
+    (by unfold Unconfusable; decide) ⟨.lex, true⟩ none
+    (f := [((2, 1), 3), ((0, 0), 5), ((1, 0), 1)])
+    ⟨by decide, by
+      intro t ht
+      have : t = ((2, 1), 3) ∨ t = ((0, 0), 5) ∨ t = ((1, 0), 1) := by simpa using ht
+      rcases this with rfl | rfl | rfl <;>
+        exact ⟨by show (_ : Nat) < 7; decide, by decide, by decide, by decide⟩, rfl⟩
+  rw [bToStrN_default] at h
+  have e : BPoly.toStr { F := primeOps 7, ord := ⟨.lex, true⟩, varNames := ("X", "Y"), ideal := none }
+      [((2, 1), 3), ((0, 0), 5), ((1, 0), 1)] = "3X^2Y + X + 5" := by decide +kernel
+  rwa [e] at h
+
+-- non-vacuity: XY + 3 in F_7[X,Y]/(X^2 + 1), graded lexicographic order
+example : ∃ g, BPoly.parse { F := primeOps 7, ord := (Order.mk (.wdeglex 1 1) true), varNames := ("X", "Y"), ideal := some [[((2, 0), 1), ((0, 0), 1)]] } "XY + 3" = .ok (some g) ∧
+    BPoly.equal (primeOps 7) [((1, 1), 1), ((0, 0), 3)] g = true := by
+  have h := prime_bpoly_roundtrip (p := 7) (by norm_num) (by norm_num) (x := "X") (y := "Y")
+    ⟨'X', [], by decide, by decide, by decide⟩ ⟨'Y', [], by decide, by decide, by decide⟩
+    (by unfold Unconfusable; decide) (Order.mk (.wdeglex 1 1) true) (some [[((2, 0), 1), ((0, 0), 1)]])
+    (f := [((1, 1), 1), ((0, 0), 3)])
+    ⟨by decide, by
+      intro t ht
+      have : t = ((1, 1), 1) ∨ t = ((0, 0), 3) := by simpa using ht
+      rcases this with rfl | rfl <;>
+        exact ⟨by show (_ : Nat) < 7; decide, by decide, by decide, by decide⟩,
+      by decide +kernel⟩
+  rw [bToStrN_default] at h
+  have e : BPoly.toStr { F := primeOps 7, ord := (Order.mk (.wdeglex 1 1) true), varNames := ("X", "Y"), ideal := some [[((2, 0), 1), ((0, 0), 1)]] } [((1, 1), 1), ((0, 0), 3)] = "XY + 3" := by
+    decide +kernel
+  rwa [e] at h
+
+/-! ### 7. what remains of `C15_full` -/
 
 /-- `UPolyRoundTrip` of `Props/C15.lean` with the bound on the number of coefficients that the
     exponent reader (`strconv.ParseInt`) imposes: an exponent `≥ 2^63` is a range error, so without
@@ -434,12 +630,12 @@ def UPolyRoundTripB {α : Type} (S : FieldSpec α) : Prop :=
       ∃ g, UPoly.parse R (UPoly.toStr S.F v f₁ ++ " + " ++ UPoly.toStr S.F v f₂) = .ok (some g) ∧
         UPoly.equal S.F g (UPoly.add S.F f₁ f₂) = true)
 
-/-- NOT PROVED. What is still only validated by the correspondence run.  Of `UPolyRoundTripB` the
-    instance `N = {}` of the first clause IS proved for all three field families
-    (`prime_upoly_roundtrip_beq`, `bin_upoly_roundtrip_beq`, `ext_upoly_roundtrip_beq`, and the
-    `*_define` corollaries); missing are the other notations (`*`, no `^`, blanks around `+`,
-    letter case) and additivity.  The bivariate statement is unproved altogether
-    (`Parse.matchesB` is validated by correspondence only). -/
+/-- NOT PROVED. What is still only validated by the correspondence run.  Of `UPolyRoundTripB` and
+    `BPolyRoundTrip` the instance `N = {}` (the printers' own notation) of the first clause IS
+    proved for all three field families, every ring/quotient ring, every monomial order
+    (`prime_/bin_/ext_upoly_roundtrip_beq`, `prime_/bin_/ext_bpoly_roundtrip`, and the `*_define`
+    corollaries in `Props/C15FullDefine.lean`); missing are the other notations (`*`, no `^`,
+    blanks around `+`, letter case, `y` before `x`) and additivity (second clauses). -/
 def C15Full_remaining : Prop :=
   (∀ p, Define.prime p = .ok (.prime p) →
     UPolyRoundTripB (primeSpec p) ∧ BPolyRoundTrip (primeSpec p)) ∧
